@@ -17,7 +17,7 @@ def handle : Handler := fun j => do
   -- the threads of this run: the operations, the watcher goroutine, and the refreshes inside
   let entries := (ops.map (fun o => "Cache." ++ o)) ++ ["watch.watch"]
   let missing := entries.filter (fun e => (progOf e).isNone)
-  let unguarded := entries.eraseDups.filter (fun e => match progOf e with | some p => !guarded false p | none => false)
+  let unguarded := entries.eraseDups.filter (fun e => match progOf e with | some p => !(guarded false (strip p) && retOK false p) | none => false)
   -- the model predicts: all guarded ⇒ no race, no hang, no mixture (C12_race_free, C12_no_deadlock,
   -- C12_one_snapshot); with an unguarded entry point a race is possible but need not show in one run
   let agree := missing.isEmpty && (unguarded != [] || (!race && !hang && !mixture))
